@@ -57,7 +57,8 @@ def beatWire (v : Impl.V1.Beat) : V2.Beat :=
 
 theorem encodeBeat_ok (v : Impl.V1.Beat) (h1 : V1.gridOk v.dflt = true) (h2 : V1.gridOk v.adj = true) :
     Impl.V1.encodeBeat v = .ok (V2.beat.enc (beatWire v)) := by
-  unfold Impl.V1.encodeBeat
+  rw [ArithZ.encodeBeat_eq_Z]
+  unfold ArithZ.encodeBeatZ
   simp only [validGrid_eq, h1, h2, Bool.not_true, Bool.or_self, Bool.false_eq_true, if_false, toWire_eq]
   apply writeInto_exact
   rw [beat_enc_length]
@@ -65,7 +66,8 @@ theorem encodeBeat_ok (v : Impl.V1.Beat) (h1 : V1.gridOk v.dflt = true) (h2 : V1
 
 theorem encodeBeat_reject (v : Impl.V1.Beat) (h : ¬ (V1.gridOk v.dflt = true ∧ V1.gridOk v.adj = true)) :
     Impl.V1.encodeBeat v = .throw .invalid_argument := by
-  unfold Impl.V1.encodeBeat
+  rw [ArithZ.encodeBeat_eq_Z]
+  unfold ArithZ.encodeBeatZ
   simp only [validGrid_eq]
   cases h1 : V1.gridOk v.dflt <;> cases h2 : V1.gridOk v.adj <;> simp_all
 
@@ -148,7 +150,8 @@ theorem decodeGrid_eq (bs : Bytes) : Impl.V1.decodeGrid bs =
     match V2.grid.dec bs with
     | some (ws, r) => if V1.wireGridOk ws = true then .ok (V1.gridOfWire ws, r) else .throw .invalid_argument
     | none => .throw .invalid_argument := by
-  unfold Impl.V1.decodeGrid V2.grid counted
+  rw [ArithZ.decodeGrid1_eq_Z]
+  unfold ArithZ.decodeGrid1Z V2.grid counted
   simp only [bind_run, remaining_run]
   by_cases h8 : bs.length < 8
   · simp [h8, u64be_dec_none h8]
